@@ -81,6 +81,12 @@ D = {
     "C18d": ("compute_I_F: running counter instead of the lookup of the normal index in the active set (same slip as seeded/C18b, found independently)", "Moreau, a frictionless contact assembled before a frictional one, both closed"),
     "C20d": ("ScipyIVP.solve sizes u_dot, la_g, la_gamma, la_c with len(t_eval) instead of len(sol.t) (same slip as seeded/C20b, found independently)", "a run truncated by the external integrator"),
     "C29d": ("export_contr builds the frame file with Path.with_suffix('.vtu')", "a contribution or file name that contains a dot (pm_0.5, body_v1.2): every frame is written to the same file"),
+    "C04d": ("cross3 builds its result with dtype=a.dtype", "an integer-typed first argument with a non-integral result: the angular velocity of a rigid body given as integers (System.assemble hands an int64 u0 on when all initial velocities are integers)"),
+    "C06d": ("Sphere2Plane.gamma_F_dot: `r_QS_dot = v_P; r_QS_dot += ...` updates the array RigidBody.v_P holds in its cache", "RigidBody subsystem, plane translating at that instant, and g_N_dot / gamma_F queried at the same (t, q, u) right after gamma_F_dot (System.assemble ends that way)"),
+    "C08d": ("TwoPointInteraction.l_dot_q: `v_P1P2 = self.v_P2(...); v_P1P2 -= self.v_P1(...)` updates the array RigidBody.v_P holds in its cache", "second subsystem a RigidBody, first one moving, damping (l_dot_q used), and a second evaluation at the same state of body 2"),
+    "C11d": ("Mesh1D.eval_basis cache key without the element number (same slip as seeded/C13b, found independently)", "xi on an interior element boundary, asked first with the explicit left element (VTK export, eval_strains) and then without"),
+    "C13d": ("gauss(n, interval) is served from an lru_cache and returns the stored arrays", "a caller that post-processes a returned rule in place (w *= J): every later request for the same (n, a, b) - any Mesh1D built afterwards - gets the modified rule"),
+    "C25d": ("Revolute.l_dot = l_dot_u @ u", "a joint partner that is a Frame with prescribed rotation about the joint axis: its angular velocity is not carried by u and is dropped"),
     "C22b": ("fixed_point_iteration calls fun(x) without the defensive copy", "a fixed-point map that updates its argument in place (DualStormerVerlet's own map with accelerated=False does)"),
 }
 rows = []
